@@ -1273,6 +1273,8 @@ class QueryBuilder(Selectable, Term):  # type:ignore[misc]
 
     @builder
     def having(self, criterion: Criterion) -> "Self":  # type:ignore[return]
+        if isinstance(criterion, EmptyCriterion):
+            return  # type:ignore[return-value]
         if self._havings:
             self._havings &= criterion
         else:
